@@ -51,6 +51,8 @@ DEFAULT_CFG = {
     'query_kinds': QUERY_KINDS,
     'nonjson_p': 0.03,
     'nowrite_p': 0.07,
+    'alt_roots_p': 0.0,
+    'kwargs_p': 0.0,
 }
 
 
@@ -122,14 +124,17 @@ def program(draw, cfg=DEFAULT_CFG, cache_rel='cache.gz'):
         if cfg.get('unique_calls') and chance(draw, cfg['unique_calls']):
             counter[0] += 1
             a = [counter[0]]
+        kw = {}
+        if cfg.get('kwargs_p') and chance(draw, cfg['kwargs_p']):
+            kw = draw(st.dictionaries(st.sampled_from(['k', 'opt']), st.one_of(st.integers(0, 1), st.sampled_from(['v', None]), st.lists(st.integers(0, 1), max_size=2)), min_size=1, max_size=2))
         if kinds[j] == 'file':
             tgt = draw(opath)
             if cfg.get('unique_calls') and unused:
                 tgt = unused.pop(draw(st.integers(0, len(unused) - 1)))
             if draw(st.integers(0, 39)) == 0:
                 tgt = cache_rel          # build_file on the cache file: must be refused
-            return ['bf', tgt, names[j], a, draw(cmp_), catch]
-        return ['sb', names[j], a, catch]
+            return ['bf', tgt, names[j], a, draw(cmp_), catch] + ([kw] if kw else [])
+        return ['sb', names[j], a, catch] + ([kw] if kw else [])
 
     def body(i, is_file, depth):
         stmts = []
@@ -180,7 +185,24 @@ def program(draw, cfg=DEFAULT_CFG, cache_rel='cache.gz'):
             root.append(draw(query))
         else:
             root.append(['probe'])
-    return {'root': root, 'funcs': {n: funcs[n] for n in names}, 'universe': list(univ)}
+    prog = {'root': root, 'funcs': {n: funcs[n] for n in names}, 'universe': list(univ)}
+    if cfg.get('alt_roots_p') and chance(draw, cfg['alt_roots_p']):
+        # variants of the root build function over the same cacheable functions (the root is not cached, so the user may
+        # edit it freely between builds): other calls, other order, other arguments
+        alts = []
+        for _ in range(draw(st.integers(1, 2))):
+            r2 = []
+            for _ in range(draw(st.integers(1, cfg['max_root']))):
+                c = draw(st.integers(0, 9))
+                if c < 7:
+                    r2.append(call(draw(st.integers(0, nfun - 1)), True))
+                elif c < 9:
+                    r2.append(draw(query))
+                elif cfg['probe_w']:
+                    r2.append(['probe'])
+            alts.append(r2)
+        prog['alt_roots'] = alts
+    return prog
 
 
 VERSION_VALUES = [None, 1, 2, 'x', 1.0, True, [1], {'a': 1}]
